@@ -11,9 +11,9 @@ namespace C15
 def sfn : List Nat := [70, 70, 70, 70, 32, 32, 32, 32, 84, 88, 84] ++ 0x20 :: List.replicate 20 0
 end C15
 
-/-- **C15.3** For a name of 1 … 255 UTF-16 units (indeed up to 260) whose last unit is neither `0x0000` nor `0xFFFF`,
-    reading the slots `LfnEntriesGenerator` writes, followed by a short file entry whose checksum they carry, returns
-    exactly one entry with exactly those units — in both buffer variants. -/
+/-- **C15.3** For a name of 1 … 255 UTF-16 units whose last unit is neither `0x0000` nor `0xFFFF`, reading the slots
+    `LfnEntriesGenerator` writes, followed by a short file entry whose checksum they carry, returns exactly one entry
+    with exactly those units — in both buffer variants. -/
 theorem lfn_roundtrip (alloc skipVolume : Bool) (name sfn : List Nat)
     (h1 : 1 ≤ name.length) (h255 : name.length ≤ 255) (hu : ∀ x ∈ name, x < 65536)
     (hne : name ≠ []) (hlast : isPad (name.getLast hne) = false) (hsfn : slotClass sfn = .file) :
@@ -21,7 +21,21 @@ theorem lfn_roundtrip (alloc skipVolume : Bool) (name sfn : List Nat)
       [⟨sfn, name, 0, numParts name.length + 1⟩] := by
   obtain ⟨g1, g2, g3, g4⟩ := generate_complete name (lfnChecksum (sfnName sfn)) h1 (by omega) hu
   rw [read_complete_run alloc skipVolume _ sfn g1 g3 hsfn, g2, g4,
-    stripTrailing_append_pads _ _ (padTail_isPad _), stripTrailing_of_last_good _ hne hlast]
+    stripTrailing_append_pads _ _ (padTail_isPad _), stripTrailing_of_last_good _ hne hlast, capName,
+    if_neg (by omega)]
+
+/-- What the reader does with a 20-slot run holding 256 … 260 units (the library never writes one: names are validated
+    to at most 255 bytes first): the entry gets NO long name, i.e. it falls back to the short name — both variants. -/
+theorem lfn_overlong_falls_back (alloc skipVolume : Bool) (name sfn : List Nat)
+    (h256 : 256 ≤ name.length) (h260 : name.length ≤ 260) (hu : ∀ x ∈ name, x < 65536)
+    (hne : name ≠ []) (hlast : isPad (name.getLast hne) = false) (hsfn : slotClass sfn = .file) :
+    readDirEntries alloc skipVolume (lfnGenerate name (lfnChecksum (sfnName sfn)) ++ [sfn]) =
+      [⟨sfn, [], 0, 21⟩] := by
+  obtain ⟨g1, g2, g3, g4⟩ := generate_complete name (lfnChecksum (sfnName sfn)) (by omega) h260 hu
+  have hn : numParts name.length = 20 := by unfold numParts; omega
+  rw [read_complete_run alloc skipVolume _ sfn g1 g3 hsfn, g2, g4,
+    stripTrailing_append_pads _ _ (padTail_isPad _), stripTrailing_of_last_good _ hne hlast, capName,
+    if_pos (by omega), hn]
 
 example : readDirEntries false true (lfnGenerate [0x61, 0x62, 0x4E2D] (lfnChecksum (sfnName C15.sfn)) ++ [C15.sfn]) =
     [⟨C15.sfn, [0x61, 0x62, 0x4E2D], 0, 2⟩] :=
@@ -34,7 +48,7 @@ theorem trailing_ffff_counterexample :
       [⟨C15.sfn, [0x61], 0, 2⟩] := by
   decide +kernel
 
-/-- **C03.4** The slots produced for 1 … 255 units (indeed up to 260): `n = ⌈len/13⌉` slots of 32 bytes; slot `i` carries
+/-- **C03.4** The slots produced for 1 … 255 units: `n = ⌈len/13⌉` slots of 32 bytes; slot `i` carries
     order `n − i` (first: `| 0x40`), attribute `0x0F`, type 0, the checksum, first-cluster 0 and 13 units; in name
     order the units are the name, then a single `0x0000` and `0xFFFF` padding iff `len` is not a multiple of 13;
     they form a complete run in the sense of the reader (`CompleteRun`) and of the specification's backward scan. -/
